@@ -54,7 +54,7 @@ Qed.
 Theorem edge_ok_types zw clipped N E e : edge_ok zw clipped N E e = true ->
   exists nu nv eu ev_, find_node N (g_u e) = Some nu /\ find_node N (g_v e) = Some nv /\
     find_ev clipped (c_ev nu) = Some eu /\ find_ev clipped (c_ev nv) = Some ev_ /\
-    (g_ty e = 2 -> c_start nu = true /\ c_start nv = true /\ is_dev_ev eu = false /\ is_dev_ev ev_ = true /\ icorr ev_ = idx eu) /\
+    (g_ty e = 2 -> c_start nu = true /\ c_start nv = true /\ is_dev_ev eu = false /\ is_dev_ev ev_ = true /\ icorr ev_ = idx eu /\ 0 < icorr ev_) /\
     (g_ty e = 3 -> c_start nu = false /\ c_start nv = true /\ is_dev_ev eu = true /\ is_dev_ev ev_ = true /\ stream eu = stream ev_ /\
                    forall k, In k clipped -> analysed k = true -> is_dev_ev k = true -> stream k = stream eu -> cat k <> "cuda_sync"%string ->
                              ~ (ts eu < ts k < ts ev_)) /\
@@ -69,7 +69,7 @@ Proof.
   destruct (g_ty e =? 1) eqn:T1; [apply Z.eqb_eq in T1; split; [intro X; exfalso; lia | split; intro X; exfalso; lia]|].
   destruct (g_ty e =? 2) eqn:T2.
   { apply Z.eqb_eq in T2. split; [|split; intro X; exfalso; lia]. intros _. rewrite !andb_true_iff in H. destruct H as [[[[[H1 H2] H3] H4] H5] _].
-    repeat split; auto; [destruct (is_dev_ev eu); [discriminate | reflexivity] | lia]. }
+    repeat split; auto; [destruct (is_dev_ev eu); [discriminate | reflexivity] | lia | lia]. }
   destruct (g_ty e =? 3) eqn:T3.
   { apply Z.eqb_eq in T3. split; [intro X; exfalso; lia|]. split; [|intro X; exfalso; lia]. intros _. rewrite !andb_true_iff in H.
     destruct H as [[[[[[[H1 H2] H3] H4] H5] H6] H7] H8].
